@@ -3,7 +3,7 @@
    "never anything but a YAML error" is a statement about the model, not true by totalisation. *)
 From Coq Require Import List NArith ZArith Bool Arith String.
 Import ListNotations.
-Require Import Scan Pos Reader Chunk Comb ParseL PT.
+Require Import Scan Pos Reader Chunk Comb ParseL PT ParserSafe ParserTerm.
 
 (* KIND C03_forward_never_crashes_inside_buffer : U *)
 (* Reader.forward over any prefix that lies inside the buffer returns normally (no IndexError) *)
@@ -38,6 +38,44 @@ Theorem C03_parser_doc_end_step_safe : forall s, pstate_ s = Some PDocEnd -> Inv
 Proof. exact step_doc_end. Qed.
 Eval vm_compute in "ASSUME:C03_parser_doc_end_step_safe"%string. Print Assumptions C03_parser_doc_end_step_safe.
 
+(* KIND C03_parser_step_keeps_invariant : U *)
+(* EVERY one of the 21 parser states: from a state satisfying the stack invariant (token list ends in its only STREAM-END, the
+   stack of states holds continuation states above one PDocEnd, one mark per open collection, a collection's start token still
+   at the head in the First states) one step ends in an event or a ParserError and re-establishes the invariant - never a
+   crash (states.pop() / marks.pop() / marks[-1] on an empty list, None.start_mark, the asserts, token.encoding) *)
+Theorem C03_parser_step_keeps_invariant : forall s, Inv2 s -> wp ParseL.step (fun _ s' => Inv2 s') s.
+Proof. exact step_inv. Qed.
+Eval vm_compute in "ASSUME:C03_parser_step_keeps_invariant"%string. Print Assumptions C03_parser_step_keeps_invariant.
+(* KIND C03_parser_never_crashes : U *)
+(* the parser alone, for ALL token lists t :: r that start with STREAM-START and end in their only STREAM-END, whatever lies
+   between, and for every amount of fuel: the run never ends in a non-YAML exception.  (Termination: C03_parser_total below.) *)
+Theorem C03_parser_never_crashes : forall t r fuel, t_kind t = TStreamStart -> toks_ok r ->
+  no_crash (snd (parse_loop fuel [] (pinit (t :: r)))).
+Proof. exact parser_never_crashes. Qed.
+Eval vm_compute in "ASSUME:C03_parser_never_crashes"%string. Print Assumptions C03_parser_never_crashes.
+(* KIND C03_parser_step_decreases_potential : U *)
+(* termination argument: Phi = 8 per token still to be consumed + rank of the current state + (rank+1) of every pending
+   continuation on the stack; every step that delivers an event strictly decreases it (all 21 states) *)
+Theorem C03_parser_step_decreases_potential : forall s, Inv2 s ->
+  wp ParseL.step (fun _ s' => Inv2 s' /\ (pstate_ s <> None -> Phi s' < Phi s)) s.
+Proof. exact step_dec. Qed.
+Eval vm_compute in "ASSUME:C03_parser_step_decreases_potential"%string. Print Assumptions C03_parser_step_decreases_potential.
+(* KIND C03_parser_total : U *)
+(* the parser alone is TOTAL: for ALL token lists t :: r that start with STREAM-START and end in their only STREAM-END, the run
+   of the model (fuel 8n+16) ends with the events or with a ParserError - it neither crashes nor runs out of fuel (no hang) *)
+Theorem C03_parser_total : forall t r, t_kind t = TStreamStart -> toks_ok r -> total (snd (parse_all (t :: r))).
+Proof. exact parser_total. Qed.
+Eval vm_compute in "ASSUME:C03_parser_total"%string. Print Assumptions C03_parser_total.
+(* KIND C03_parser_crash_needs_bad_delimiters : F *)
+(* not vacuous, and the hypotheses are needed: without the final STREAM-END the model does crash (None.start_mark), exactly as
+   the implementation does (parsel correspondence) *)
+Example C03_parser_crash_needs_bad_delimiters :
+  let m := {| m_index := 0; m_line := 0; m_col := 0 |} in
+  let tk k := {| t_kind := k; t_start := m; t_end := m |} in
+  no_crash (snd (parse_all [tk TStreamStart; tk (TScalar [97%N] true SPlain); tk TStreamEnd])) /\
+  ~ no_crash (snd (parse_all [tk TStreamStart; tk (TScalar [97%N] true SPlain)])).
+Proof. vm_compute. split; [exact I|intros H; exact H]. Qed.
+
 (* KIND C03_scanner_total_refuted : F *)
 (* FULL (scanner never crashes) is false of the faithful model: a %YAML directive whose minor number has more than 4300 digits
    makes int() raise ValueError (CPython's integer string conversion limit).  Replayed on the implementation this is the known
@@ -51,6 +89,6 @@ Example C03_escape_out_of_range_is_scanner_error :
   match snd (scan_all [34; 92; 85; 70; 70; 70; 70; 70; 70; 70; 70; 34]%N) with Scan.ScanErr _ _ _ => True | _ => False end.
 Proof. vm_compute. exact I. Qed.
 
-(* PARTIAL: scanner_total, parser_total (all 21 states), composer_total and error_marks_inside are not proved.  They are
+(* PARTIAL: scanner_total, composer_total and error_marks_inside are not proved.  They are
    decided by the scan/parse/compose/reader correspondence on a malformed-input stream (outcome class incl. the class of any
    non-YAML exception must agree with the model) and by the direct run on the implementation under a watchdog. *)
